@@ -41,3 +41,31 @@ let zlist_of_hex s = List.map z_of_int (bytes_of_hex s)
 let hex_of_zlist l = hex_of_bytes (List.map int_of_z l)
 
 let split_on c s = String.split_on_char c s
+
+(* ---- handler registry ---- *)
+let handlers : (string, string list -> string) Hashtbl.t = Hashtbl.create 64
+let register tag h = Hashtbl.replace handlers tag h
+
+(* ---- printing of model results in the canonical format of go/impl describe() ---- *)
+let kind_name = function
+  | KAztec -> "Aztec" | KCodabar -> "Codabar" | KCode128 -> "Code_128" | KCode39 -> "Code_39"
+  | KCode93 -> "Code_93" | KDataMatrix -> "DataMatrix" | KEAN8 -> "EAN_8" | KEAN13 -> "EAN_13"
+  | KPDF -> "PDF417" | KQR -> "QR_Code" | K2of5 -> "2_of_5" | K2of5I -> "2_of_5_(interleaved)"
+
+let bits_string (l : bool list) =
+  let b = Buffer.create 256 in
+  List.iter (fun x -> Buffer.add_char b (if x then '1' else '0')) l; Buffer.contents b
+
+let show_barcode (bc : barcode) =
+  Printf.sprintf "OK %s %d 0,0-%dx%d %s %s %s" (kind_name bc.bc_kind) (int_of_z (kind_dims bc.bc_kind))
+    (int_of_z bc.bc_width) (int_of_z bc.bc_height) (hex_of_zlist bc.bc_content)
+    (match bc.bc_checksum with Some z -> string_of_int (int_of_z z) | None -> "-")
+    (String.concat "/" (List.map bits_string bc.bc_rows))
+
+let show_outcome show = function
+  | Ok x -> show x
+  | Err -> "ERR"
+  | Panic -> "PANIC"
+  | OutOfFuel -> "OUTOFFUEL"
+
+let bools_of_string s = List.init (String.length s) (fun i -> s.[i] = '1')
